@@ -2,6 +2,7 @@
 from __future__ import annotations
 
 import asyncio
+from collections import Counter
 import copy
 import os
 import pickle
@@ -1002,6 +1003,22 @@ def _c18_case(col, rng, cidx, tmpdir, jobref=None):
     except Exception as e:  # noqa: BLE001
         col.violation(pid, "cache_file_unreadable", dict(exc=repr(e)[:200]), rp)
         return
+    runnable1 = [ids[i] for i in sorted(sel1) if i not in inst_setup.get(id(d), {})]
+    if runnable1 and rng.random() < 0.15:
+        # a second caching run on the SAME path that FAILS half way (a node raises): what the successful run wrote stays usable
+        probes.State.faults = {rng.choice(runnable1)}
+        try:
+            rf = probes.run_op("failing_caching_run_on_the_same_path", lambda: op_exec(d, kw1, [Sym("arg", cidx, "failing")]))
+        finally:
+            probes.State.faults = set()
+        col.counters["c18_failing_caching_runs_on_an_existing_file:%s" % rf[0]] += 1
+        if rf[0] == "exc":
+            try:
+                with open(path, "rb") as f:
+                    cached = pickle.load(f)  # noqa: S301
+            except Exception as e:  # noqa: BLE001
+                col.violation(pid, "cache_file_unusable_after_a_failed_caching_run_on_the_same_path", dict(exc=repr(e)[:200], caching=S.jsonable(kw1), source=S.render(sp)), rp)
+                return
     cached_sites = {i for i in range(n) if ids[i] in cached}
     col.counters["c18_cache_files"] += 1
     if mode != "cache_deps_of":
@@ -1206,6 +1223,26 @@ def _c18_case(col, rng, cidx, tmpdir, jobref=None):
                 col.violation(pid, "restart_recomputed_cached_nodes", dict(recomputed=sorted(x for x in entb if x in cached), second_use_of_same_file=True, source=S.render(sp)), rp2)
     col.hashes.add(S.spec_hash({"s": S.render(sp), "k1": {k: v for k, v in S.jsonable(kw1).items() if k != "cache_in"},
                                 "k2": {k: v for k, v in S.jsonable(kw2).items() if k != "from_cache"}}))
+    if sp["is_async"] and not setup18 and rng.random() < 0.5:
+        # the caching run and the restart awaited one after the other in ONE event loop (a service that checkpoints and resumes)
+        path3 = os.path.join(tmpdir, "c%d_loop.pkl" % cidx)
+        a3 = [Sym("arg", cidx, "one-loop")]
+        d3, _e, _p = S.build_tawazi(sp, plain=plain)
+
+        async def both():
+            ra = await d3.executor(cache_in=path3)(*a3)
+            rb = await d3.executor(from_cache=path3)(*a3)
+            return ra, rb
+
+        B.reset_log()
+        r3 = probes.run_op("caching_run_and_restart_in_one_event_loop", lambda: asyncio.run(both()))
+        ent3 = Counter(e["node"] for e in B.snapshot() if e["kind"] == "FENTER")
+        col.counters["c18_caching_run_and_restart_in_one_event_loop"] += 1
+        if r3[0] != "ok":
+            col.violation(pid, "restart_in_the_event_loop_of_the_caching_run_raised", dict(exc=repr(r3[1])[:300], source=S.render(sp)), rp)
+        elif not same(r3[1][0], r3[1][1]) or any(c > 1 for c in ent3.values()):
+            col.violation(pid, "restart_in_the_event_loop_of_the_caching_run_recomputed_or_differs", dict(
+                caching_run=short(r3[1][0], 200), restart=short(r3[1][1], 200), entered_twice=sorted(k for k, c in ent3.items() if c > 1), source=S.render(sp)), rp)
     if cidx % 40 == 0:
         col.sample(dict(source=S.render(sp), caching={k: v for k, v in S.jsonable(kw1).items() if k != "cache_in"}, cache_file_keys=sorted(k for k in cached if k in ids),
                         restart={k: v for k, v in S.jsonable(kw2).items() if k != "from_cache"}, restart_executed=sorted(ent)))
